@@ -114,7 +114,7 @@ def differential(ctx, hb, mexe, pid, classify):
                 if mr[mi] == "X" or mr[mi] != real_st or (mr[mi] == "O" and mr[mi + 1] != real_v):
                     # cases of the finding classes the tree model cannot express are not part of the tie
                     tg = set(r[6].split(","))
-                    if side == "S" and (("mapkeyskip" in tg and real_st == "P") or "ptrptrunm" in tg or "unterm32" in tg or "arrcomma" in tg):
+                    if side == "S" and ("unterm32" in tg or "arrcomma" in tg):
                         continue
                     p2 = dict(payload)
                     p2["model"] = mr[mi] + " " + mr[mi + 1][:400]
@@ -339,7 +339,7 @@ def backends(ctx, hb, classify, mexe=None):
             rep["problems"].append(("T", "model driver failed: " + out[-800:]))
         else:
             mod = {f[0]: f for f in _lines(mres)}
-            skip_tags = {"jit": {"mapkeyskip", "ptrptrunm", "unterm32", "arrcomma"}, "opt": {"b64pad", "badutf8"}, "fast": {"b64pad", "badutf8"}}
+            skip_tags = {"jit": {"unterm32", "arrcomma"}, "opt": {"b64pad", "badutf8"}, "fast": {"b64pad", "badutf8"}}
             for name, col in (("jit", 1), ("opt", 5), ("fast", 7)):
                 for r in outs[name]:
                     m = mod.get(r[0])
